@@ -158,7 +158,15 @@ def _run_one(m):
                 return dict(m, status='killed', detail=hit[0])
             if refuted:
                 return dict(m, status='killed-other', detail=refuted[0])
-            return dict(m, status='SURVIVED', detail='; '.join(errors) or 'all obligations discharged')
+            if errors and 'engine-error' in m['expect']:
+                return dict(m, status='undecided-as-recorded', detail='engine error (exit 3): ' + errors[0][:120])
+            undec = [n for r in res for n, v in r['bad'] if v != 'refuted']
+            if undec and 'undecided' in m['expect'].lower():
+                # recorded as such by the contract's author: the mutant is no longer proved (./check exits 2), no
+                # counter-model is found - weaker than a kill, and said so in the evidence
+                return dict(m, status='undecided-as-recorded', detail=undec[0])
+            return dict(m, status='SURVIVED', detail='; '.join(errors) or ('not refuted; undecided: ' + ', '.join(undec[:2]) if undec
+                                                                          else 'all obligations discharged'))
         bad = [n for r in res for n, v in r['bad']]
         if m['expect'].startswith(('undecided', 'not-discharged', 'not verified')):
             # recorded when the best the check could say about this breaking mutant was "no longer proved" (exit 2):
@@ -183,11 +191,12 @@ def run(prop, jobs=8):
         return {'mutants': 0, 'results': []}
     with mp.Pool(min(jobs, len(ms))) as pool:
         results = pool.map(_run_one, ms, chunksize=1)
-    ok = [r for r in results if r['status'] in ('killed', 'killed-other', 'passes')]
+    ok = [r for r in results if r['status'] in ('killed', 'killed-other', 'passes', 'undecided-as-recorded')]
     # a mutant whose anchor no longer exists (the source under it was edited) cannot be evaluated: reported as stale,
     # not as a failure of the machinery (on the unchanged tree every mutant applies: checked when the file is committed)
     stale = [r for r in results if r['status'] == 'not-applied']
     return {'mutants': len(ms), 'as_expected': len(ok), 'stale': [r['line'][:160] for r in stale],
+            'only_undecided(as recorded)': sum(1 for r in results if r['status'] == 'undecided-as-recorded'),
             'failures': [{'line': r['line'], 'status': r['status'], 'detail': r['detail']} for r in results
                          if r not in ok and r not in stale],
             'results': [{'mutant': f"{r['file']}: {r['sed']}", 'expect': r['expect'], 'status': r['status'],
